@@ -121,6 +121,9 @@ func (h *History) drawUniverse() {
 		for i := 0; i < 40; i++ {
 			cpool = append(cpool, fmt.Sprintf("Q%02d", i))
 		}
+		// names longer than a machine word that agree in their first bytes
+		cpool = append(cpool, "VANGUARDFTSE01", "VANGUARDFTSE02", "VANGUARDSP500", "VANGUARDSP500X")
+		pool = append(pool, "Sammelkonto"+strings.Repeat("Lang", 12)+"B", "Sammelkonto"+strings.Repeat("Lang", 12)+"A")
 	}
 	seen := map[string]bool{}
 	add := func(name string, accrual bool) {
@@ -292,7 +295,7 @@ func (h *History) pickTwo(open []*acct) (*acct, *acct) {
 func (h *History) advance(min int) {
 	t := h.t
 	k := rapid.SampledFrom([]int{0, 0, 0, 1, 1, 2, 7, 20, 31, 45, -1, -1}).Draw(t, "dt")
-	if h.cfg.WideDates && !h.leapt && rapid.IntRange(0, 60).Draw(t, "centuryLeap") == 0 {
+	if h.cfg.WideDates && !h.leapt && Rare(t, "centuryLeap", 6) {
 		// once per journal at most: a jump of centuries (dates beyond 2262 overflow int64 nanoseconds)
 		k = rapid.SampledFrom([]int{40000, 100000, 150000}).Draw(t, "centuryLeapDays")
 		h.leapt = true
@@ -497,13 +500,13 @@ func (h *History) run() {
 	}
 	burst := 0
 	for step := 0; step < n; step++ {
-		if cfg.Large && burst == 0 && rapid.IntRange(0, 99).Draw(t, "burst") == 0 {
+		if cfg.Large && burst == 0 && Rare(t, "burst", 7) {
 			// hundreds of directives on one day (a month-end batch import)
 			burst = rapid.IntRange(200, 700).Draw(t, "burstLen")
 		}
 		if burst > 0 {
 			burst--
-			h.step(rapid.SampledFrom([]int{0, 1, 1, 1, 1, 6, 4}).Draw(t, "burstAct"))
+			h.step(rapid.SampledFrom([]int{0, 1, 1, 1, 1, 1, 1, 6, 4, 3, 3, 7}).Draw(t, "burstAct"))
 			continue
 		}
 		h.advance(0)
@@ -784,12 +787,24 @@ func (h *History) step(act int) {
 	}
 }
 
-// MaybeLarge turns one case in oneIn into a ledger of realistic size (see HistCfg.Large).
+// MaybeLarge turns one case in 2^k into a ledger of realistic size (see HistCfg.Large).
 func MaybeLarge(t *rapid.T, cfg *HistCfg, oneIn int) bool {
-	if rapid.IntRange(0, oneIn-1).Draw(t, "largeLedger") != 0 {
+	if !Rare(t, "largeLedger", oneIn) {
 		return false
 	}
 	cfg.Large = true
 	cfg.MaxActions = rapid.SampledFrom([]int{400, 800, 1600}).Draw(t, "largeActions")
+	return true
+}
+
+// Rare is true with probability 2^-k. rapid's integer generators favour the ends of their range
+// (IntRange(0, n).Draw == 0 holds in about one case in ten however large n is), so events meant to be rare are
+// drawn as a conjunction of k fair coins; shrinking turns them off.
+func Rare(t *rapid.T, label string, k int) bool {
+	for i := 0; i < k; i++ {
+		if !rapid.Bool().Draw(t, label) {
+			return false
+		}
+	}
 	return true
 }
